@@ -88,10 +88,16 @@ func WriteNdJson(env *dsl.Environment, options packaging.CppCodegenOptions) erro
 	}
 
 	unionsBySyntax := make(map[string]*dsl.GeneralizedType)
+	// each referenced definition is visited once (the cost would otherwise be exponential in the
+	// depth of records that hold the same record several times)
+	visitedDefinitions := make(map[dsl.TypeDefinition]bool)
 	dsl.Visit(env, func(self dsl.Visitor, node dsl.Node) {
 		switch t := node.(type) {
 		case *dsl.SimpleType:
-			self.Visit(t.ResolvedDefinition)
+			if t.ResolvedDefinition != nil && !visitedDefinitions[t.ResolvedDefinition] {
+				visitedDefinitions[t.ResolvedDefinition] = true
+				self.Visit(t.ResolvedDefinition)
+			}
 		case *dsl.GeneralizedType:
 			if t.Cases.IsUnion() {
 				// Convert the union cases to their u types so we don't generate
@@ -446,6 +452,7 @@ func writeUnionConverters(w *formatting.IndentedWriter, unionType *dsl.Generaliz
 
 	typeParameters := make(map[string]any)
 	templateParameters := make([]string, 0)
+	visitedDefinitions := make(map[dsl.TypeDefinition]bool)
 	dsl.Visit(unionType, func(self dsl.Visitor, node dsl.Node) {
 		switch node := node.(type) {
 		case *dsl.GenericTypeParameter:
@@ -457,7 +464,10 @@ func writeUnionConverters(w *formatting.IndentedWriter, unionType *dsl.Generaliz
 		case *dsl.NamedType:
 			self.Visit(node.Type)
 		case *dsl.SimpleType:
-			self.Visit(node.ResolvedDefinition)
+			if node.ResolvedDefinition != nil && !visitedDefinitions[node.ResolvedDefinition] {
+				visitedDefinitions[node.ResolvedDefinition] = true
+				self.Visit(node.ResolvedDefinition)
+			}
 		default:
 			self.VisitChildren(node)
 		}
